@@ -126,11 +126,15 @@ func H_C04_prune_runeDie() {
 // rejected (skipped/invalid) action attempts, must replay to the same verdict and the same draws.
 func H_C04_prune_repeat() {
 	nact := 1 + choose("nact", 2)
+	alphabet := []uint8{opReturn, opDrawBool, opErrorf, opSkip}
+	if thorough() {
+		alphabet = []uint8{opReturn, opDrawBool, opDrawFiltered, opErrorf, opSkip}
+	}
 	var progs [][]uint8
 	for i := 0; i < nact; i++ {
-		progs = append(progs, symOps("act"+itoa(i), 3, []uint8{opReturn, opDrawBool, opDrawFiltered, opErrorf, opSkip}))
+		progs = append(progs, symOps("act"+itoa(i), 3, alphabet))
 	}
-	pruneRepeat(progs, pruneL(9, 15))
+	pruneRepeat(progs, pruneL(9, 13))
 }
 
 // H_C04_prune_repeatFilter: one action that starts with a rejection-based draw (which may give
